@@ -90,12 +90,22 @@ def obligations(W, n, args):
         out.append(("value <= u", atom_le(v, ("field", s, "u"))))
         out.append(("value >= last_value", atom_le(("field", s, "last_value"), v)))
         return cn, out
+    if cn in ("slice::align_to", "slice::align_to_mut"):
+        # unsafe only because the middle part reinterprets the elements: between plain integer types every bit
+        # pattern is valid (how much lands in the prefix/suffix is R12.7's business)
+        INTS = ("u8", "u16", "u32", "u64", "u128", "usize", "i8", "i16", "i32", "i64", "i128", "isize")
+        ga = n.get("ga") or []
+        if len(ga) == 2 and ga[0] in INTS and ga[1] in INTS:
+            out.append(("both element types are plain integers", ("true",)))
+            return cn, out
     # everything else: needs a table entry (type punning, raw parts, etc.)
     out.append(("unsafe precondition of %s" % cn, ("table", cn)))
     return cn, out
 
 
 def goal_holds(K, goal):
+    if goal[0] == "true":
+        return True
     if goal[0] == "any":
         return any(K.entails(g) for g in goal[1])
     if goal[0] == "table":
@@ -104,6 +114,8 @@ def goal_holds(K, goal):
 
 
 def goal_show(goal):
+    if goal[0] == "true":
+        return "(holds by the types involved)"
     if goal[0] == "any":
         return " or ".join(ashow(g) for g in goal[1][:3]) + (" ..." if len(goal[1]) > 3 else "")
     if goal[0] == "table":
